@@ -358,6 +358,8 @@ def make_observable(d: dict, n_atoms: int, backend: str):
     if k == "energy_second_moment":
         return EnergySecondMoment(**kw)
     if k == "bitstrings":
+        if d.get("one_state"):
+            kw["one_state"] = d["one_state"]  # explicitly naming the excited state must not change anything
         return BitStrings(num_shots=d.get("shots", 100), **kw)
     if k == "state":
         return StateResult(**kw)
@@ -423,6 +425,17 @@ def make_config(scn: dict, cfg: dict, **over: Any):
         import pathlib
 
         kw["log_file"] = pathlib.Path(c["log_file"])  # relative: lands in the (simulated) working directory
+    if c.get("initial_mixed") and c.get("initial_state") is None and c["backend"] == "sv":
+        # a mixed initial state for the master-equation solver: sum_k w_k |bits_k><bits_k|
+        import torch
+        from emu_sv import DensityMatrix, StateVector
+
+        rho = None
+        for bits, w in c["initial_mixed"]:
+            v = StateVector.from_state_amplitudes(eigenstates=("r", "g"), amplitudes={bits: 1.0}).data
+            term = float(w) * torch.outer(v, v.conj())
+            rho = term if rho is None else rho + term
+        c["initial_state"] = DensityMatrix(rho, gpu=False)
     if c.get("initial_bits") and c.get("initial_state") is None:
         if c["backend"] == "mps":
             from emu_mps import MPS
